@@ -23,6 +23,8 @@ LEVEL_NOTE = ("Not decided: equality of results over all permutations (a schedul
 
 
 def lazy_routing(prog, rep):
+    from ..lib.trace import canon_full
+    from ..lib.cfgq import natural_loops
     from ..lib.cfgq import cycle_avoiding
     # E6.o
     rep.rule("E6.o", "LazyGraph::push routes CreateEdge → edge_statements, AddGraphNodeAttribute/AddEdgeAttribute → attr_statements, Print → print_statements; "
@@ -84,6 +86,20 @@ def lazy_routing(prog, rep):
                 # the inner loop is entered on every outer iteration
                 ok = ok and not cycle_avoiding(body, outer[0][0], outer[0][1], {inner[0][0]})
             rep.check(ok, "E6.o", "LazyGraph::evaluate :: phases", f.loc(), "for phase in [edges, attrs, prints]: every statement of the phase evaluated", "the phase array is not evaluated completely and in order")
+            return
+        # chained form: edges.iter().chain(attrs.iter()).chain(prints.iter()) driven by one loop (for / try_for_each)
+        def it(fld):
+            return r"(?:slice::iter\(&\*Deref::deref\(&\*arg:self\.%s\)\)|IntoIterator::into_iter\(&\*arg:self\.%s\)|&\*arg:self\.%s)" % (fld, fld, fld)
+        chain_pat = r"^&(?:IntoIterator::into_iter\()?Iterator::chain\(Iterator::chain\(%s, %s\), %s\)\)?$" % (it("edge_statements"), it("attr_statements"), it("print_statements"))
+        chained = [(b, t) for b, t in body.calls() if is_callee(t, r"Iterator::next$") and re.match(chain_pat, canon_full(tr.operand(t["args"][0])))]
+        if len(chained) == 1:
+            nb_ = chained[0][0]
+            lps = [(h, bl) for h, bl in natural_loops(body) if nb_ in bl]
+            calls = [b for b, t in body.calls() if is_callee(t, r"LazyStatement::evaluate$")]
+            ok = len(lps) == 1
+            if ok:
+                ok, msg = once_per_iteration(body, lps[0][0], lps[0][1], [b for b in calls if b in lps[0][1]])
+            rep.check(ok, "E6.o", "LazyGraph::evaluate :: phases", f.loc(), "edges.chain(attrs).chain(prints): every statement evaluated, in phase order", "the chained phases are not evaluated completely and in order")
             return
         for fld in ("edge_statements", "attr_statements", "print_statements"):
             lp = forward_loops(body, tr, r"arg:self\.%s$" % fld)
